@@ -228,14 +228,18 @@ def run(ctx):
         check_stream(ctx, kind, data, desc, line, q)
         if len([v for v in ctx.violations]) >= 12:
             break
+    # VarDCT frames with a jbrd box (synthetic lossless JPEG transcodes): chunking must not change the
+    # image nor the reconstruction status either
+    for label, data, _jpeg in fl.synth_vardct(ctx, 6 if q else 60):
+        check_stream(ctx, "vardct-jbrd", data, None, label, q, do_model=False)
     check_fixture(ctx, q)
     ctx.assumptions += [
         "header / TOC parsers are abstract prefix-stable functions in the theorems; that ImageHeader::parse, read_icc and "
         "Frame::parse are prefix stable is exercised by this run, not proved",
         "the model's parsers for the correspondence run are driven by the layout the real decoder reports for the whole "
         "stream (bytes before the first frame, header+TOC length, is_last, keyframe flag and section sizes per frame)",
-        "VarDCT frames, previews and permuted TOCs are not generated (the encoder is Modular-only); an embedded ICC profile "
-        "occurs only in the fixture",
+        "VarDCT frames occur only as synthetic JPEG transcodes (DCT8 blocks, jbrd box; compared without the feeding model); "
+        "previews are not generated; an embedded ICC profile occurs only in the fixture",
         "Brotli-compressed (brob) boxes are covered by C10 at the container layer only",
         "rendered samples are compared by a 64-bit FNV hash of every channel buffer of every keyframe",
     ]
